@@ -25,7 +25,7 @@ ASSUMPTIONS = ["reference = vlib.daggen.ref_eval / vlib.mapgen.oracle on the ori
                "probe terms use the functions' own (internal) parameter names, so pipeline-level renaming must not change values",
                "nest_funcs subsets are chosen convex (no path leaves the subset and re-enters) by the harness's own graph analysis"]
 BATCH = 12
-REWRITES = ["copy", "pickle", "join", "or", "rename", "rename-swap", "rename-restore", "scope", "scope-nested", "scope-remove", "nest", "nest-all", "simplify", "split"]
+REWRITES = ["copy", "pickle", "join", "or", "rename", "rename-swap", "rename-restore", "scope", "scope-nested", "scope-remove", "rescope", "nest", "nest-all", "simplify", "split"]
 
 
 def plan(tier, seed):
@@ -42,6 +42,10 @@ class SplitRefused(ValueError):
 
 class Skip(Exception):
     pass
+
+
+class Broken(Exception):
+    """A rewrite step whose result contradicts its documentation before anything is computed: (signature, message)."""
 
 
 class State:
@@ -179,14 +183,33 @@ def apply_rewrite(kind, st, case, rng, scratch):
             q = p.copy() if st.base else p
             q.update_scope("sc", "*", "*")
         present = {n for f in q.functions for n in list(f.parameters) + list(f.output_name if isinstance(f.output_name, tuple) else (f.output_name,))}
-        return State(q, {o: (f"sc.{c}" if f"sc.{c}" in present or c not in present else c) for o, c in st.names.items()}, list(st.outs),
+        # (a parameter that is bound wherever it occurs keeps its name: nobody can supply it)
+        free = {n for f in q.functions for n in f.parameters if n not in f.bound} | {n for f in q.functions for n in (f.output_name if isinstance(f.output_name, tuple) else (f.output_name,))}
+        left = sorted(c for c in st.names.values() if c in free and f"sc.{c}" not in present)
+        if left:
+            # update_scope(scope, "*", "*") / Pipeline(..., scope=scope) puts EVERY input and output into the scope
+            raise Broken(f"scope-not-applied/{how}", f"after scoping everything ({how}) these names are still unscoped: {left[:6]}")
+        return State(q, {o: f"sc.{c}" for o, c in st.names.items()}, list(st.outs),
                      "nested" if kind == "scope-nested" else "flat", "sc", st.nested)
+    if kind == "rescope":
+        # a pipeline that already lives in scope 'sc' is moved into another scope: the new scope REPLACES the old one
+        if st.scope is None or st.nested:
+            raise Skip
+        q = p.copy() if st.base else p
+        how = rng.choice(["pipeline", "members"])
+        if how == "members":
+            for f in q.functions:
+                f.update_scope("t2", "*", "*")
+        else:
+            q.update_scope("t2", "*", "*")
+        return State(q, {o: ("t2." + c.split(".", 1)[1] if c.startswith(st.scope + ".") else "t2." + c) for o, c in st.names.items()},
+                     list(st.outs), st.conv, "t2", st.nested)
     if kind == "scope-remove":
         if st.scope is None:
             raise Skip
         q = p.copy() if st.base else p
         q.update_scope(None, "*", "*")
-        return State(q, {o: (c.split(".", 1)[1] if c.startswith("sc.") else c) for o, c in st.names.items()}, list(st.outs), "flat", None, st.nested)
+        return State(q, {o: (c.split(".", 1)[1] if c.startswith(st.scope + ".") else c) for o, c in st.names.items()}, list(st.outs), "flat", None, st.nested)
     if kind in ("nest", "nest-all"):
         q = p.copy()
         if len(q.functions) < 2:
@@ -444,6 +467,7 @@ def run_dag(v, desc, scratch, keys):
         check_overwrite_renames(v, case, rng, w0)
         chains = [[k] for k in REWRITES]
         chains += [["pickle", k] for k in ("rename", "scope", "rename-swap")] + [["pickle", "scope", "scope-remove"]]
+        chains += [["scope", "rescope"], ["scope-nested", "rescope"], ["scope", "rescope", "scope-remove"]]
         chains += [["rename", "rename-restore"], ["rename-swap", "rename-restore"], ["rename", "copy", "rename-restore"]]
         for _ in range(desc["chains"] * 6):
             chains.append([rng.choice(REWRITES) for _ in range(rng.randint(2, 3))])
@@ -455,6 +479,9 @@ def run_dag(v, desc, scratch, keys):
                     for kind in chain:
                         st = apply_rewrite(kind, st, case, rng, scratch)
             except Skip:
+                continue
+            except Broken as b:
+                v.bad(b.args[0], f"rewrite {chain}: {b.args[1]}", **w)
                 continue
             except Exception as e:  # noqa: BLE001
                 scoped = "/scoped" if (st.scope is not None) else ""
